@@ -14,6 +14,10 @@
    Component theorems of the Rust-mirroring model (Model/BitReader, Huffman, Lossless: tied to the code on every run by the
    c01model correspondence through hooks) -- second half of this file:
      * the bit reader delivers the stream's bits LSB first whatever refill path it takes (read_bits = s mod 2^n);
+     * normal prefix codes (two-level table + tree of huffman.rs): for every length vector 0..15 that build_implicit accepts,
+       read_symbol returns exactly the symbol whose canonical code word (the specification's: Spec.PrefixCode.stream_codes)
+       starts the stream and consumes exactly its length; every stream starts with exactly one code word (completeness +
+       prefix-freeness);
      * simple prefix codes: one symbol costs 0 bits; two symbols: the smaller gets bit 0, transmission order irrelevant,
        equal symbols collapse (defect F3 repaired);
      * the backward-reference copy (16-byte copy_within trick and scalar tail) is the overlapping LZ77 copy
@@ -21,7 +25,8 @@
 From Coq Require Import ZArith List.
 From WebP Require Import Gen.Tables Gen.Kernels Lib.ZBits Spec.VP8L Proofs.VP8L_kernels.
 From WebP Require Lib.Res Lib.Arr Model.LosslessLib Model.BitReader Model.Huffman Model.Lossless
-  Proofs.Lossless_BitReader Proofs.Lossless_HuffmanSafe Proofs.Lossless_HuffmanSimple Proofs.Lossless_CopyWithin.
+  Proofs.Lossless_BitReader Proofs.Lossless_HuffmanSafe Proofs.Lossless_HuffmanSimple Proofs.Lossless_CopyWithin
+  Proofs.Lossless_HuffmanRead Spec.PrefixCode.
 Import ListNotations.
 Open Scope Z_scope.
 
@@ -67,7 +72,7 @@ Proof. split; vm_compute; congruence. Qed.
 (* ---------------- Rust-mirroring model: bit reader, simple codes, backward-reference copy ---------------- *)
 Module M.
   Import Model.LosslessLib Model.BitReader Model.Huffman Model.Lossless Proofs.Lossless_BitReader
-    Proofs.Lossless_HuffmanSafe Proofs.Lossless_HuffmanSimple Proofs.Lossless_CopyWithin.
+    Proofs.Lossless_HuffmanSafe Proofs.Lossless_HuffmanSimple Proofs.Lossless_CopyWithin Proofs.Lossless_HuffmanRead.
 
   (* [R s r]: reader state r (64-bit reservoir + unread bytes) represents the unread bit stream s (an integer, LSB first) *)
   Theorem bitreader_initial : forall d sch, Forall byte d -> R (V d) (init d sch).
@@ -83,6 +88,28 @@ Module M.
 
   Theorem bitreader_peek : forall s r k, R s r -> 0 <= k -> (k <= nbits r \/ data r = []) -> (peek_full r) mod 2 ^ k = s mod 2 ^ k.
   Proof. exact peek_full_low. Qed.
+
+  (* HuffmanTree::build_implicit + read_symbol = canonical prefix decoding of the specification *)
+  Theorem normal_code_read_symbol : forall lens t s r sym,
+    lens_ok lens -> Z.of_nat (length lens) <= 5957 -> 2 <= nz lens -> build_implicit lens = Res.Ok t ->
+    R s r -> (sym < length lens)%nat -> nth sym lens 0 <> 0 ->
+    s mod 2 ^ (nth sym lens 0) = nth sym (Spec.PrefixCode.stream_codes lens) 0 ->
+    nth sym lens 0 <= nbits r ->
+    exists r', read_symbol t r = Res.Ok (Z.of_nat sym, r') /\ R (Z.shiftr s (nth sym lens 0)) r' /\
+               nbits r' = nbits r - nth sym lens 0 /\ data r' = data r.
+  Proof. exact read_symbol_spec. Qed.
+
+  Theorem normal_code_complete : forall lens t s,
+    lens_ok lens -> Z.of_nat (length lens) <= 5957 -> 2 <= nz lens -> build_implicit lens = Res.Ok t -> 0 <= s ->
+    exists sym, (sym < length lens)%nat /\ nth sym lens 0 <> 0 /\
+                s mod 2 ^ (nth sym lens 0) = revl (nth sym lens 0) (dec_code lens sym) /\
+                forall sym', (sym' < length lens)%nat -> nth sym' lens 0 <> 0 ->
+                             s mod 2 ^ (nth sym' lens 0) = revl (nth sym' lens 0) (dec_code lens sym') -> sym' = sym.
+  Proof. exact code_complete. Qed.
+
+  Theorem normal_code_words_canonical : forall lens sym, lens_ok lens -> (sym < length lens)%nat -> nth sym lens 0 <> 0 ->
+    dec_code lens sym = nth sym (Spec.PrefixCode.canonical lens) 0.
+  Proof. exact dec_code_canonical. Qed.
 
   Theorem simple_code_one_symbol : forall s br, read_symbol (build_single_node s) br = Res.Ok (s, br).
   Proof. exact read_symbol_single. Qed.
